@@ -191,7 +191,10 @@ def run(ctx):
         if k:
             ctx.touch(f)
         n += k
-    ctx.floor("C07.a", "string slice sites", n, 11)
+    # 11 on the pinned tree; the two constant-offset slices (INPUT's quotes, the radix prefix) can
+    # be rewritten with strip_prefix/strip_suffix without changing behaviour, so the floor is the
+    # nine slices of the string functions themselves
+    ctx.floor("C07.a", "string slice sites", n, 9)
     rule_a2(ctx, cr)
     rule_b(ctx, cr)
     rule_c(ctx, cr)
